@@ -209,7 +209,7 @@ pub fn worker_main(args: &[String]) {
         if sum.samples.len() < 2 && report.nontrivial && report.violations.is_empty() {
             sum.samples.push(json!({
                 "run_index": index,
-                "case": serde_json::to_value(&case).unwrap(),
+                "case": shorten(serde_json::to_value(&case).unwrap()),
                 "decisions": report.decisions.iter().take(400).collect::<Vec<_>>(),
                 "outcome": report.outcome_class,
             }));
@@ -282,6 +282,22 @@ fn read_hashes(prop: &str, tag: &str, worker: u64, kind: &str, into: &mut BTreeS
         }
     }
     std::fs::remove_file(&path).ok();
+}
+
+/// Long texts are cut in evidence samples (the full case is reproducible from its run index).
+fn shorten(v: Value) -> Value {
+    match v {
+        Value::String(s) if s.len() > 600 => {
+            let mut e = 600;
+            while !s.is_char_boundary(e) {
+                e -= 1;
+            }
+            Value::String(format!("{}… ({} bytes in all)", &s[..e], s.len()))
+        }
+        Value::Array(a) => Value::Array(a.into_iter().map(shorten).collect()),
+        Value::Object(o) => Value::Object(o.into_iter().map(|(k, v)| (k, shorten(v))).collect()),
+        v => v,
+    }
 }
 
 fn sanitize(s: &str) -> String {
